@@ -3,8 +3,8 @@
 id=$1; shift
 checks="$@"; [ -z "$checks" ] && checks=$id
 export GOFLAGS=-mod=mod GOPROXY=off GOSUMDB=off GOTOOLCHAIN=local
-src=/tmp/seed/$id
-dst=/verif/seeded/$id
+src=${SEEDROOT:-/tmp/seed}/$id
+dst=/verif/seeded/$id${SUFFIX:-}
 mkdir -p $dst
 cp $src/SEED_PATCH.diff $dst/patch.diff
 cp $src/SEED_META.txt $dst/agent_notes.txt 2>/dev/null
@@ -30,7 +30,7 @@ for c in $checks; do
   res="$res $c:$(echo "$out" | grep -c VIOLATION)"
 done
 git checkout -q -- . 
-echo "RESULT $id:$res"
+echo "RESULT $id${SUFFIX:-}:$res"
 cat > $dst/meta.json <<EOM
 {"property": "$id", "demo": "$(basename $demo)", "demo_package": "$pkgdir", "confirmed": {"build": "${b:-ok}", "suite_with_change": "${s:-all ok}", "demo_with_change": "$(echo $d1 | tr -d '"')", "demo_without_change": "$(echo $d2 | tr -d '"')"}, "checks_run": "$checks", "violations_reported": "$res"}
 EOM
